@@ -22,8 +22,10 @@ ASSUMPTIONS = [
     "is the model's input: how a die is decomposed is C01's subject",
     "which rectangle of maximum area heapq pops and the order of the returned list are not compared (verified checker phase2_ok); "
     "when phase 2 does not run the lists are compared exactly, order included",
-    "binary64: coordinates are dyadic so every halving is exact; the aspect-ratio quotient h/w is rounded by the code and exact in the "
-    "model - a case whose exact ratio differs from the limit by less than 4 ulp is not generated (none met so far)",
+    "binary64: coordinates are dyadic so every halving is exact; the aspect-ratio quotient h/w (inverted with 1.0/ar below 1) is rounded "
+    "by the code and exact in the model: a case in which, for some rectangle obtainable by halving, the rounded test `aspect_ratio > r` "
+    "decides differently from the exact quotient (e.g. a 10 x 17 region with the limit 1.7, whose binary64 value is below 17/10; a "
+    "71 x 50 region with 1.42, where even the orientation matters) is run but neither compared nor judged (counted in the evidence)",
     "initial_grid divides by the row/column count: compared exactly when the step is dyadic, within 16 roundings at the die's magnitude otherwise",
     "the model is written for the code as repaired by fixes/C11-phase2-aspect.diff",
 ]
@@ -186,11 +188,40 @@ def run_impl(case):
         signal.signal(signal.SIGALRM, old)
 
 
+SKIPPED = {"float-boundary": 0}
+
+
+def float_boundary(rects, r):
+    """True iff, for some rectangle obtainable from `rects` by halving the longer side, the code's
+    rounded test `aspect_ratio > r` (h/w, inverted with 1.0/ar when below 1) decides differently
+    from the exact quotient.  Such cases (e.g. a 10 x 17 region with the limit 1.7, whose binary64
+    value is below 17/10) are outside what an exact-arithmetic model can speak about."""
+    rf, rq = float(r), core.frac(r)
+    for d in rects:
+        w, h = core.frac(d["w"]), core.frac(d["h"])
+        if w <= 0 or h <= 0:
+            continue
+        for _ in range(34):
+            ar = float(h) / float(w)
+            if ar < 1:
+                ar = 1.0 / ar
+            if (ar > rf) != (max(w / h, h / w) > rq):
+                return True
+            if h > w:
+                h /= 2
+            else:
+                w /= 2
+    return False
+
+
 def run_impl_(case):
     from frame.geometry.geometry import Rectangle, split_rectangles
     Rectangle.undefine_epsilon()
     try:
         if case["kind"] == "raw":
+            if float_boundary(case["rects"], case["r"]):
+                SKIPPED["float-boundary"] += 1
+                return {"status": "boundary"}
             rects = [fr.mk_rect(d) for d in case["rects"]]
             try:
                 out = split_rectangles(rects, float(case["r"]), case["n"])
@@ -207,6 +238,9 @@ def run_impl_(case):
         except AssertionError as e:
             return {"status": "die-rejected", "why": str(e)[:200]}
         before = snapshot(die)
+        if case["kind"] == "split" and float_boundary(before["spec"] + before["ground"], case["r"]):
+            SKIPPED["float-boundary"] += 1
+            return {"status": "boundary"}
         try:
             if case["kind"] == "split":
                 die.split_refinable_regions(float(case["r"]), case["n"])
@@ -241,7 +275,7 @@ def dyadic(q):
 
 def to_coq(case, obs):
     st = obs["status"]
-    if st == "die-rejected":
+    if st in ("die-rejected", "boundary"):
         return "true"
     if st == "hang":
         return "false"
@@ -324,7 +358,7 @@ def admissible(r, n):
 
 def oracle(case, obs):
     st = obs["status"]
-    if st == "die-rejected":
+    if st in ("die-rejected", "boundary"):
         return None
     if st == "hang":
         return "the call did not return within 10 s"
@@ -453,6 +487,7 @@ def run(ctx, out, replay=None):
         cases.append(gen_case(ctx.rng))
     fr.run_cases(ctx, out, cases, run_impl, to_coq, oracle, failure_key, HEADER,
                  dist_key=dist_key, nontrivial=nontrivial, shard=70, shrink=shrink)
+    out.extra["skipped_float_boundary_cases"] = SKIPPED["float-boundary"]
     greedy_evidence(ctx, out, cases[:160 if ctx.quick() else 1500])
 
 
